@@ -100,7 +100,7 @@ def run_kernel(progs, workdir, name='kcases'):
     vf = os.path.join(workdir, name + '.v')
     with open(vf, 'w') as f:
         f.write('From Coq Require Import ZArith List Bool String.\n'
-                'From PS.model Require Import Smt Enc Prog Driver.\nFrom PS.spec Require Import Spec.\n'
+                'From PS.model Require Import Smt Enc Ind Prog Driver.\nFrom PS.spec Require Import Spec.\n'
                 'Import ListNotations.\nOpen Scope string_scope.\n')
         for i, p in enumerate(progs):
             f.write('Definition p%d : list op := %s.\n' % (i, to_coq(p)))
